@@ -122,6 +122,7 @@ type Genesis struct {
 	SlashDownE18 int64
 	MinCommE18   int64
 	Vals         []GVal
+	PoaGenesis   []byte // optional: raw x/poa genesis JSON (genesis round-trip checks)
 }
 
 // Node is one running SimApp instance.
@@ -248,6 +249,10 @@ func NewNode(w *World, g Genesis) (*Node, []abci.ValidatorUpdate, error) {
 	mg.Params.InflationRateChange = sdkmath.LegacyZeroDec()
 	mg.Params.MintDenom = BondDenom
 	gs[minttypes.ModuleName] = cdc.MustMarshalJSON(mg)
+
+	if g.PoaGenesis != nil {
+		gs["poa"] = g.PoaGenesis
+	}
 
 	stateBytes, err := json.Marshal(gs)
 	if err != nil {
